@@ -125,6 +125,11 @@ def run_pls(ck, rng, tier, which):
     for i, (mt, o) in enumerate(zip(meta, outs)):
         if o is None:
             continue
+        nf_ = None if o.get("nonterminating") else vf.first_nonfinite(o)
+        if nf_:
+            # finite in-domain data: every stored result is a finite number (tolerance comparisons below are blind to NaN)
+            ck.fail("PLS", "not_finite", "the output `%s` holds NaN/Inf" % nf_, {"case": str(mt)[:3000]})
+            continue
         X, Y, Xnew, xs, ys, nlv, rank, noise = mt
         n, m = X.shape
         ny = Y.shape[1]
